@@ -1,19 +1,18 @@
 #!/usr/bin/env bash
 # try_seed_copy.sh <seed-id> <check ids...> : like try_seed.sh, but the seeded change is applied to a scratch copy of /repo
-# (VERIF_REPO), so /repo itself is never touched and other runs against it are not disturbed.
+# (VERIF_REPO) and the evidence of the trial goes to a scratch directory (VERIF_EVIDENCE_DIR), so neither /repo nor
+# /verif/evidence is touched and several trials can run side by side.
 ID=$1; shift
 W=$(mktemp -d /var/tmp/seedcopy.XXXXXX)
+E=$(mktemp -d /var/tmp/seedevid.XXXXXX)
 rsync -a --exclude target --exclude .git /repo/ $W/
-( cd $W && git apply --unsafe-paths /verif/seeded/$ID/patch.diff ) || { echo "patch does not apply"; rm -rf $W; exit 2; }
-SAVE=$(mktemp -d /var/tmp/evsave.XXXXXX)
-cp -a /verif/evidence/*.json $SAVE/ 2>/dev/null
+( cd $W && git apply --unsafe-paths /verif/seeded/$ID/patch.diff ) || { echo "patch does not apply"; rm -rf $W $E; exit 2; }
 for c in "$@"; do
-  out=$(cd /verif && VERIF_REPO=$W ./check $c --tier ${TIER:-quick} 2>&1)
+  out=$(cd /verif && VERIF_REPO=$W VERIF_EVIDENCE_DIR=$E ./check $c --tier ${TIER:-quick} 2>&1)
   rc=$?
   echo "== $ID / $c exit=$rc :: $(echo "$out" | grep -c '^VIOLATION') violations; $(echo "$out" | tail -1 | cut -c1-150)"
   echo "$out" | grep -A1 "^VIOLATION" | grep -v "^VIOLATION\|^--" | head -3 | cut -c1-260
   echo "$out" | grep "^INCONCLUSIVE" | head -3 | cut -c1-260
+  [ -n "$KEEP_OUT" ] && echo "$out" > $KEEP_OUT.$ID.$c.log
 done
-cp -a $SAVE/*.json /verif/evidence/ 2>/dev/null
-rm -rf $SAVE $W
-rm -f /verif/evidence/replays/*.json
+rm -rf $W $E
